@@ -303,15 +303,84 @@ MC_BOM_THOROUGH = MC_BOM_QUICK + [
 
 
 def run_mc_set(rep, binp, configs, what, module='MC_DecQ', kind='dec'):
-    """the MC runs are independent: run up to 5 TLC instances at a time, then replay each export"""
+    """TLC exhaustive on Layer I x monitor for every configuration (up to 5 TLC instances at a time), then spec -> impl:
+    the exported behaviours of all configurations are re-driven on the real code in one harness run, validated by the
+    monitor (violations are fatal) and compared call by call with the model's predictions (MODEL-DRIFT notes)."""
     import concurrent.futures
     t = time.time()
     with concurrent.futures.ThreadPoolExecutor(max_workers=5) as ex:
         futs = [ex.submit(mc_run, module, cfg, ('NoViolation',), (), 'View', 3, 3000, True) for cfg in configs]
         runs = [f.result() for f in futs]
     log('TLC model checking of %d configurations of %s in %.1fs' % (len(configs), module, time.time() - t))
-    for cfg, r in zip(configs, runs):
-        mc_and_replay(rep, binp, module, cfg, what, kind=kind, r=r)
+    outdir = '%s/%s/mcreplay_%s' % (RUN, rep.prop, module)
+    clean_dir(outdir)
+    planfile = outdir + '/plans.ndjson'
+    spans = []
+    gid = 0
+    with open(planfile, 'w') as f:
+        for cfg, r in zip(configs, runs):
+            rep.add_mc(r['name'], r, what)
+            run = rep.cov['mc_runs'][-1]
+            run['consts'] = {k: (sorted(v) if isinstance(v, (list, set)) else v) for k, v in cfg.items()}
+            if r.get('violated') or not r.get('completed'):
+                run['model_violation'] = True
+                rep.notes.append('MODEL-ALARM %s: TLC reports a violation or did not complete on the implementation-shaped model: %s'
+                                 % (r['name'], (r.get('error_text') or '')[:1500]))
+                log('MODEL-ALARM', r['name'], (r.get('error_text') or '')[:600])
+            hists = r.get('hists', [])
+            start = gid
+            for h in hists:
+                gid += 1
+                new = dict(h['new'])
+                new['h'] = gid
+                plan = history_to_plan([json.dumps(new)] + [json.dumps(c) for c in h['calls']])
+                plan['h'] = gid
+                f.write(json.dumps(plan) + '\n')
+            spans.append((run, hists, start))
+    if gid == 0:
+        return
+    st = run_profile(binp, kind + '-replay', outdir, 1, 'quick', shards=8, extra=['--in', planfile])
+    spec = PROFILE_SPEC[kind + '-replay']
+    results = validate_traces(spec, st['files'])
+    rep.add_trace_results('replay of %d TLC-exported behaviours of %d %s configurations' % (gid, len(configs), module), spec, results, st)
+    handle_trace_violations(rep, results)
+    # prediction vs reality: the harness numbers the replayed histories in plan order per shard; "orig" carries the plan id
+    real = {}
+    for fpath in st['files']:
+        cur = None
+        for line in open(fpath):
+            e = json.loads(line)
+            if e['ev'] in ('N', 'NE'):
+                cur = e.get('orig', e['h'])
+                real[cur] = []
+            elif e['ev'] in ('D', 'E') and cur is not None:
+                real[cur].append(e)
+    keys = ('res', 'ml', 'ma', 'read', 'written', 'out', 'had', 'enc', 'cap', 'q') if kind == 'dec' else ('res', 'um', 'read', 'written', 'out', 'had', 'pending')
+    for run, hists, start in spans:
+        drift = 0
+        first = None
+        ncalls = 0
+        for i, h in enumerate(hists):
+            rc = real.get(start + i + 1, [])
+            for j, c in enumerate(h['calls']):
+                ncalls += 1
+                if j >= len(rc):
+                    break
+                if any(c.get(k) != rc[j].get(k) for k in keys):
+                    drift += 1
+                    if first is None:
+                        first = {'history': i + 1, 'call': j, 'predicted': {k: c.get(k) for k in set(keys + ('src', 'cap', 'last'))},
+                                 'real': {k: rc[j].get(k) for k in set(keys + ('src', 'cap', 'last'))}}
+                    break
+        run['replayed_histories'] = len(hists)
+        run['replayed_calls'] = ncalls
+        run['model_drift_histories'] = drift
+        run['model_conformant'] = drift == 0
+        if first:
+            run['first_drift'] = first
+            log('MODEL-DRIFT %s: %d of %d replayed behaviours differ from the prediction, first: %s' % (run['model'], drift, len(hists), json.dumps(first)[:600]))
+        if hists and len(rep.cov['samples']) < 8:
+            rep.cov['samples'].append({'tlc_exported_behaviour': hists[len(hists) // 2]})
     log('MC set (%d configurations) in %.1fs' % (len(configs), time.time() - t))
 
 
